@@ -1,4 +1,122 @@
 import FormulaicVerif.Model.Parser
-/-! # C14 (work in progress) -/
+import FormulaicVerif.Proofs.C14
+/-! # C14 — Any input string is parsed or rejected with the library's parsing error
+
+Property theorems only (helpers: `Proofs/C14.lean`). The model keeps every Python operation that
+can raise something other than the parsing error as an explicit `ParseErr.internal` outcome
+(`reduce` on an empty iterable, a misaligned `Structured._merge`, an unknown operator
+implementation, the multistage `NotImplementedError`), so "internal exceptions never escape" is a
+statement about reachability, not a typing artefact.
+
+Proved for ALL inputs: every failure of tokenisation + token rewriting is the parsing error or the
+SyntaxError of an invalid Python fragment, and the latter only when such a fragment exists; every
+failure of the shunting-yard (any token list, any operator table) is the parsing error; evaluation
+of every expression of the arithmetic fragment (unbounded nesting) is a term set or the parsing
+error. Parsing terminates because every model function is total (structural recursion; the two
+fuelled functions `mergeVals`/`simplifyVal` are given fuel exceeding the value's depth).
+
+FULL (unproved): `no_internal_error : (∀ t e, env.norm t = .error e → e = .syntaxError) →
+parseTerms cfg env cs ≠ .error (.internal k)` for every string, all 8 flag subsets. Missing: the
+invariant that structural operators (`~`, `|`, `[ ~ ]`) only occur on the top spine of every AST the
+shunting-yard returns, which makes the `ValueError`/`TypeError` branches of `mergeVals` and
+`applyStructural` unreachable. It is FALSE of the current code for MULTISTAGE parsers
+(`[[a ~ b] ~ c]` raises NotImplementedError, pinned by the test-suite: known finding C14-F1); without
+MULTISTAGE it is exercised exhaustively on short strings by the correspondence. -/
 namespace FormulaicVerif.Props.C14
+open FormulaicVerif FormulaicVerif.Model FormulaicVerif.Proofs.ShuntC
+
+/-- C14.1  Every failure of the shunting-yard is the library's parsing error: for every token list
+and EVERY operator table (so for all feature-flag subsets). -/
+theorem shunt_errors_are_syntax (tab : OpTable) (ts : List Tok) (e : ParseErr)
+    (h : tokensToAst tab ts = .error e) : ∃ w, e = .syntax w :=
+  Proofs.C14.shunt_errors_are_syntax tab ts e h
+
+/-- C14.2  Evaluating any expression of the arithmetic fragment (operators `+ - * / %in% : ** ^`,
+unary signs, parentheses; unbounded nesting) gives a term set or the parsing error — the
+`TypeError` of `reduce` on an empty parent set, the `StopIteration`/`TypeError` of a bad exponent
+and the `ValueError` of a misaligned merge are unreachable. -/
+theorem eval_plain_no_internal (dot : DotCtx) (e : E) (h : Proofs.C14.PlainE e) :
+    (∃ ts, evalAst dot (strip e) = .ok (.set ts)) ∨ (∃ w, evalAst dot (strip e) = .error (.syntax w)) :=
+  Proofs.C14.eval_plain_good dot e h
+
+/-- the guards added by the repairs are what makes C14.2 true: the raw `reduce` does raise on `∅` -/
+example : reduceMulTerms [] = .error (.internal "TypeError") := rfl
+example (b : List Term) : ∃ w, nestedProduct [] b = .error (.syntax w) := ⟨_, rfl⟩
+
+private theorem sanitize_err (norm : List Char → Except PyErr (List Char)) :
+    ∀ (ts : List Tok) (e : PyErr), sanitizeTokens norm ts = .error e →
+      ∃ t ∈ ts, t.kind = some .python ∧ norm t.text = .error e := by
+  intro ts
+  induction ts with
+  | nil => intro e h; simp [sanitizeTokens] at h
+  | cons t ts ih =>
+    intro e h
+    unfold sanitizeTokens at h
+    simp only at h
+    by_cases hd : (t.text == ['.'] && t.kind != some .name) = true
+    · simp only [hd, if_true] at h
+      have hk : ¬ ((some TKind.operator : Option TKind) == some .python) = true := by decide
+      simp only [hk, Bool.false_eq_true, if_false] at h
+      cases hr : sanitizeTokens norm ts with
+      | error e' =>
+        rw [hr] at h; injection h with h; subst h
+        obtain ⟨t', ht', hp⟩ := ih _ hr
+        exact ⟨t', by simp [ht'], hp⟩
+      | ok r => rw [hr] at h; cases h
+    · simp only [hd, Bool.false_eq_true, if_false] at h
+      by_cases hp : (t.kind == some .python) = true
+      · simp only [hp, if_true] at h
+        cases hn : norm t.text with
+        | error e' =>
+          rw [hn] at h
+          simp only [Except.map] at h
+          injection h with h; subst h
+          exact ⟨t, by simp, by simpa using hp, hn⟩
+        | ok x =>
+          rw [hn] at h
+          simp only [Except.map] at h
+          cases hr : sanitizeTokens norm ts with
+          | error e' =>
+            rw [hr] at h; injection h with h; subst h
+            obtain ⟨t', ht', hp'⟩ := ih _ hr
+            exact ⟨t', by simp [ht'], hp'⟩
+          | ok r => rw [hr] at h; cases h
+      · simp only [hp, Bool.false_eq_true, if_false] at h
+        cases hr : sanitizeTokens norm ts with
+        | error e' =>
+          rw [hr] at h; injection h with h; subst h
+          obtain ⟨t', ht', hp'⟩ := ih _ hr
+          exact ⟨t', by simp [ht'], hp'⟩
+        | ok r => rw [hr] at h; cases h
+
+/-- C14.3  Tokenisation and token rewriting fail only with the parsing error, or with Python's
+SyntaxError, and the latter only when a Python fragment found in the string is itself rejected by
+the Python parser (`norm`, i.e. `ast.parse`). For every string and configuration. -/
+theorem pySyntax_only_from_fragment (cfg : ParseCfg) (env : PyEnv) (cs : List CharInfo) (e : ParseErr)
+    (hnorm : ∀ t x, env.norm t = .error x → x = .syntaxError)
+    (h : getTokens cfg env cs = .error e) :
+    (∃ w, e = .syntax w) ∨
+    (e = .pySyntax ∧ ∃ t ∈ (tokenizeStream cs).1, t.kind = some .python ∧ env.norm t.text = .error .syntaxError) := by
+  unfold getTokens at h
+  simp only at h
+  cases hs : sanitizeTokens env.norm (tokenizeStream cs).1 with
+  | error x =>
+    rw [hs] at h
+    injection h with h
+    obtain ⟨t, ht, hk, hn⟩ := sanitize_err env.norm _ _ hs
+    have hx := hnorm _ _ hn
+    subst hx
+    right
+    exact ⟨by rw [← h]; rfl, t, ht, hk, hn⟩
+  | ok ts =>
+    rw [hs] at h
+    simp only at h
+    cases hl : (tokenizeStream cs).2 with
+    | none => rw [hl] at h; cases h
+    | some le =>
+      rw [hl] at h
+      injection h with h
+      left
+      cases le <;> exact ⟨_, h.symm⟩
+
 end FormulaicVerif.Props.C14
